@@ -143,6 +143,19 @@ fn engine_explore(a: &Args) {
     let first = a.num("first-history", 0);
     let announce = a.flag("announce");
     let mut ex = Explorer::new();
+    {
+        use lean_string::LeanString;
+        use std::mem::{align_of, size_of};
+        let w = size_of::<usize>();
+        ex.cov.mon("layout", true);
+        if size_of::<LeanString>() != 2 * w || size_of::<Option<LeanString>>() != 2 * w || align_of::<LeanString>() != w || align_of::<Option<LeanString>>() != w {
+            emit_viol(
+                "explore",
+                &Viol { prop: 20, monitor: "layout", msg: format!("size_of LeanString {} / Option {} (expected {}), align {}", size_of::<LeanString>(), size_of::<Option<LeanString>>(), 2 * w, align_of::<LeanString>()) },
+                seed, 0, profile.name(), "", &[],
+            );
+        }
+    }
     ex.trace_digest = a.flag("digest");
     ex.cmp_every = a.num("cmp-every", 7);
     let mut nviol = 0;
